@@ -728,7 +728,7 @@ def cases(tier, seed):
         for dg in range(-1, 7):
             if dg <= N + 1:
                 add('simple', ['gnd', N, dg], mode='plain', max_dev=2 if not thorough else 3,
-                    max_execs=6000 if not thorough else 60000, horizon=400, default='mix',
+                    max_execs=6000 if not thorough else 30000, horizon=400, default='mix',
                     default_seed=seed)
     add('simple', ['gnd', 4])
     add('simple', ['gnd', 4, 2, 1])
